@@ -224,6 +224,8 @@ func (n *node) runBlock(txs []pb.Transaction) []*pb.Receipt {
 type execEngine struct {
 	nodes    []*node // replica 0 is the reference; others (C01) are fed the same blocks
 	sigOn    bool
+	txLog    []pb.Transaction    // every transaction built in this history, in order (tx token `again <k>` re-includes the k-th, byte for byte)
+	txLocal  []bool
 	admInit  map[string]*big.Int // admin balances when the history starts
 	// C01, world option pipe=1: one more replica runs the executor's own goroutine pipeline (Start / ExecuteBlock:
 	// pre-execution stage, execution stage) and is handed every block without waiting for the previous one; its results
@@ -310,6 +312,7 @@ func (e *execEngine) reset() {
 		rmDir(n.dir)
 	}
 	e.nodes = nil
+	e.txLog, e.txLocal = nil, nil
 	e.stopPipe()
 }
 
@@ -843,6 +846,17 @@ func (e *execEngine) blockAt(at uint64, ws []string) string {
 	var txs []pb.Transaction
 	var local []bool
 	for _, t := range splitTxs(ws) {
+		if len(t) == 2 && t[0] == "again" {
+			// the very same transaction once more (same bytes, same hash): a block may carry a transaction an earlier block
+			// carried already — the executor does not look at nonces of BitXHub transactions
+			k, err := strconv.Atoi(t[1])
+			if err != nil || k < 0 || k >= len(e.txLog) {
+				return "bad-op again"
+			}
+			txs = append(txs, copyTxs([]pb.Transaction{e.txLog[k]})[0])
+			local = append(local, e.txLocal[k])
+			continue
+		}
 		tx, loc, err := e.buildTx(n0, t)
 		if err != nil {
 			return "bad-op " + err.Error()
@@ -850,6 +864,8 @@ func (e *execEngine) blockAt(at uint64, ws []string) string {
 		txs = append(txs, tx)
 		local = append(local, loc)
 	}
+	e.txLog = append(e.txLog, copyTxs(txs)...)
+	e.txLocal = append(e.txLocal, local...)
 	res := make([]string, len(e.nodes))
 	if e.pipe != nil {
 		// the pipelined replica gets the block first and is not waited for
